@@ -486,3 +486,123 @@ Proof.
     split; [apply H2; exact I1 | rewrite H1; exact I1].
   - split; reflexivity.
 Qed.
+
+(** The level lists, side by side. *)
+Definition model_levels (c : cfg) : list tree :=
+  [norm (c_defaults c); norm (c_collection c); part3 (sys3 c); part3 (usr3 c); part3 (prj3 c);
+   norm (c_env c); part2 (rt2 c); norm (c_overrides c); Node (c_mods c)].
+
+Lemma model_levels_eq c : map norm (levels_of c) = model_levels c.
+Proof. reflexivity. Qed.
+
+Lemma supplied_rt fs i ops :
+  let u := map undefer ops in
+  s_runtime (supplied_of fs i ops) = fst (rt_spec fs (existsb isRt (after_last isSetR u)) (last_of fR u (i_rt i))) /\
+  s_unreadable (supplied_of fs i ops) =
+    snd (fst (located fs (negb (i_lazy i) || existsb isSys u) (Some "sys"))) ||
+    snd (fst (located fs (negb (i_lazy i) || existsb isUsr u) (Some "usr"))) ||
+    snd (fst (located fs (existsb isPrj (after_last isSetP u)) (last_of fP u (i_proj i)))) ||
+    snd (rt_spec fs (existsb isRt (after_last isSetR u)) (last_of fR u (i_rt i))).
+Proof. split; reflexivity. Qed.
+
+Definition fE (o : op) : option (option (list (string * string))) :=
+  match o with LoadShellEnv e => Some (Some e) | _ => None end.
+
+Lemma no_env_in_script ops d : forallb script_op ops = true -> last_of fE (map undefer ops) d = d.
+Proof.
+  revert d. induction ops as [|o r IH]; intros d H; [reflexivity|].
+  simpl in H. apply andb_true_iff in H as [Ho Hr]. cbn [map]. rewrite last_of_cons, (IH _ Hr).
+  destruct o; try reflexivity; discriminate.
+Qed.
+
+Lemma corr_levels fs i ops :
+  forallb script_op ops = true -> no_bad fs (b0 i) (init_ops i ++ ops) = true ->
+  let c := apply_script fs (b0 i) (init_ops i ++ ops) in
+  let S := supplied_of fs i ops in
+  model_levels c = levels9 S (Node []) ++ [Node []] /\
+  s_unreadable S = false /\
+  sfx_ok (s_sfx S) [c_sys_sfx c; c_user_sfx c; c_proj_sfx c] = true /\
+  s_env S = None /\ c_env c = Node [] /\ c_dels c = [] /\ c_env_prefix c = "INVOKE_".
+Proof.
+  intros HF Hnb. cbv zeta.
+  assert (HW : forallb script_op (init_ops i ++ ops) = true)
+    by (rewrite forallb_app, init_ops_script, HF; reflexivity).
+  destruct (sys_corr fs i ops HF Hnb) as [S1 [S2 S3]].
+  destruct (usr_corr fs i ops HF Hnb) as [U1 [U2 U3]].
+  destruct (prj_corr fs i ops HF Hnb) as [P1 [P2 P3]].
+  destruct (rt_corr_script fs i ops HF Hnb) as [R1 R2]. cbv zeta in *.
+  destruct (fold_simple fs (init_ops i ++ ops) (b0 i) HW)
+    as [Hd [Ho [Hc [_ [_ [He [Hm [Hdl [_ [_ Hpf]]]]]]]]]]. cbv zeta in *.
+  destruct (supplied_rt fs i ops) as [Q1 Q2]. cbv zeta in Q1, Q2.
+  split; [|split; [|split; [|split; [|split; [|split]]]]].
+  - unfold model_levels, levels9, below_env, above_env. cbn [app].
+    rewrite S1, U1, P1, R1, Hd, Ho, Hc, He, Hm, Q1.
+    rewrite !init_prefix_last by reflexivity. reflexivity.
+  - rewrite Q2, S2, U2, P2, R2. reflexivity.
+  - change (s_sfx (supplied_of fs i ops)) with
+      [snd (located fs (negb (i_lazy i) || existsb isSys (map undefer ops)) (Some "sys"));
+       snd (located fs (negb (i_lazy i) || existsb isUsr (map undefer ops)) (Some "usr"));
+       snd (located fs (existsb isPrj (after_last isSetP (map undefer ops)))
+                    (last_of fP (map undefer ops) (i_proj i)))].
+    unfold sfx_agrees in S3, U3, P3. unfold sfx_ok.
+    destruct (snd (located fs (negb (i_lazy i) || existsb isSys (map undefer ops)) (Some "sys")));
+      [rewrite S3, String.eqb_refl|];
+    (destruct (snd (located fs (negb (i_lazy i) || existsb isUsr (map undefer ops)) (Some "usr")));
+      [rewrite U3, String.eqb_refl|]);
+    (destruct (snd (located fs (existsb isPrj (after_last isSetP (map undefer ops)))
+                    (last_of fP (map undefer ops) (i_proj i))));
+      [rewrite P3, String.eqb_refl|]); reflexivity.
+  - change (s_env (supplied_of fs i ops)) with (last_of fE (map undefer ops) None).
+    apply no_env_in_script. exact HF.
+  - rewrite He. reflexivity.
+  - rewrite Hdl. reflexivity.
+  - rewrite Hpf. reflexivity.
+Qed.
+
+(** The failing direction: a call that fails on I/O makes the specification's
+    reading of the script up to and including it "unreadable". *)
+Lemma located_bad_inv fs f loc : located_bad fs f loc = true ->
+  f = FNone /\ exists l, loc = Some l /\ try_suffixes fs l file_suffixes = LFail.
+Proof.
+  unfold located_bad. destruct f; try discriminate. destruct loc as [l|]; try discriminate.
+  destruct (try_suffixes fs l file_suffixes) eqn:E; try discriminate. intros _. split; [reflexivity|].
+  exists l. split; [reflexivity | exact E].
+Qed.
+
+Lemma runtime_bad_inv fs f p : runtime_bad fs f p = true -> runtime_bad fs FNone p = true.
+Proof. unfold runtime_bad. destruct f; try discriminate. auto. Qed.
+
+Lemma last_of_snoc {A} (f : op -> option A) l o d :
+  last_of f (l ++ [o]) d = match f o with Some a => a | None => last_of f l d end.
+Proof. unfold last_of. rewrite fold_left_app. reflexivity. Qed.
+
+Lemma bad_unreadable fs i done o :
+  forallb script_op done = true -> script_op o = true ->
+  io_bad fs (apply_script fs (b0 i) (init_ops i ++ done)) o = true ->
+  s_unreadable (supplied_of fs i (done ++ [o])) = true.
+Proof.
+  intros HF Ho Hb.
+  assert (HW : forallb script_op (init_ops i ++ done) = true)
+    by (rewrite forallb_app, init_ops_script, HF; reflexivity).
+  destruct (fold_simple fs (init_ops i ++ done) (b0 i) HW)
+    as [_ [_ [_ [Hpl [Hrp [_ [_ [_ [Hsl [Hul _]]]]]]]]]]. cbv zeta in *.
+  rewrite init_prefix_last in Hpl by reflexivity. rewrite init_prefix_last in Hrp by reflexivity.
+  change (c_proj_loc (b0 i)) with (i_proj i) in Hpl. change (c_rt_path (b0 i)) with (i_rt i) in Hrp.
+  destruct (supplied_rt fs i (done ++ [o])) as [_ Q2]. cbv zeta in Q2. rewrite Q2. clear Q2.
+  rewrite map_app. cbn [map]. rewrite !after_last_snoc, !existsb_app, !last_of_snoc.
+  unfold io_bad in Hb.
+  destruct o; try discriminate; cbn [undefer isSys isUsr isPrj isRt isSetP isSetR fP fR existsb orb] in *.
+  1, 5: apply located_bad_inv in Hb as [_ [l [El Hl]]]; rewrite Hsl in El; inversion El; subst l;
+    rewrite !orb_true_r; destruct (located_corr fs "sys") as [H _]; cbv zeta in H; rewrite (H Hl); reflexivity.
+  1, 4: apply located_bad_inv in Hb as [_ [l [El Hl]]]; rewrite Hul in El; inversion El; subst l;
+    rewrite !orb_true_r; destruct (located_corr fs "usr") as [H _]; cbv zeta in H; rewrite (H Hl);
+    rewrite !orb_true_r; reflexivity.
+  1, 3: apply located_bad_inv in Hb as [_ [l [El Hl]]]; rewrite Hpl in El;
+    rewrite existsb_app; cbn [existsb isPrj orb]; rewrite !orb_true_r; rewrite El;
+    destruct (located_corr fs l) as [H _]; cbv zeta in H; rewrite (H Hl);
+    rewrite !orb_true_r; reflexivity.
+  1, 2: apply runtime_bad_inv in Hb; rewrite Hrp in Hb;
+    rewrite !existsb_app; cbn [existsb isRt isPrj orb]; rewrite !orb_true_r;
+    destruct (rt_corr fs (last_of fR (map undefer done) (i_rt i))) as [H _]; cbv zeta in H;
+    rewrite H, Hb; rewrite !orb_true_r; reflexivity.
+Qed.
